@@ -172,6 +172,12 @@ def _worker(i):
             # the contract has to be re-derived -- undecided, neither a violation nor a crash of the checker
             rec.calls.append(('undecide', ('%s: the contract no longer fits the function (%s: %s at %s:%d)'
                                            % (c.target, type(e).__name__, e, os.path.basename(frames[-1].filename), frames[-1].lineno),)))
+        elif frames and os.sep + 'pyvc' + os.sep in frames[-1].filename and isinstance(e, (TypeError, AttributeError, KeyError, IndexError)) \
+                and os.environ.get('VERIF_REPO', '/repo') != '/repo':
+            # on a CHANGED tree: the symbolic executor met a value shape it has no rule for (the changed code left the supported
+            # subset) -- undecided.  On /repo itself the same thing is a defect of the machinery and stays an error.
+            rec.calls.append(('undecide', ('%s: the function left the subset of the symbolic executor (%s: %s at %s:%d)'
+                                           % (c.target, type(e).__name__, e, os.path.basename(frames[-1].filename), frames[-1].lineno),)))
         else:
             rec.calls.append(('error', ('%s: worker crashed: %s' % (c.target, traceback.format_exc()[-800:]),)))
     return i, rec.calls, rec.conformance_runs
